@@ -735,6 +735,47 @@ fn run_zeroize(cfg: &Value) -> Value {
             drop(w);
             zscan::disarm()
         },
+        "witness_popped" => {
+            // openings (a public field) shortened by moving elements out after construction: the images the moved-out openings leave in the
+            // vector's spare capacity (their values) must be wiped before the block is released
+            let mut w = RangeWitness::init((0..m).map(|_| CommitmentOpening::new(marker_u64, (0..x).map(|_| marker_scalar()).collect())).collect()).unwrap();
+            zscan::arm();
+            for _ in 0..(m / 2).max(1).min(m.saturating_sub(1)) {
+                let o = w.openings.pop();
+                drop(o);
+            }
+            if cfg["swap_remove"].as_bool().unwrap_or(false) && w.openings.len() > 1 {
+                let o = w.openings.swap_remove(0);
+                drop(o);
+            }
+            drop(w);
+            zscan::disarm()
+        },
+        "prove_refused_late" => {
+            // a prover call refused because of the LAST opening of an aggregate (its value is below its promise): whatever the prover built from the
+            // earlier, valid openings before it got there must not be released unwiped
+            let pc = ristretto::create_pedersen_gens_with_extension_degree(ext_degree(x));
+            let params = RangeParameters::init(n, m, pc).unwrap();
+            let mut openings = Vec::new();
+            let mut commitments = Vec::new();
+            for _ in 0..m {
+                let r: Vec<Scalar> = (0..x).map(|_| marker_scalar()).collect();
+                commitments.push(params.pc_gens().commit(&Scalar::from(marker_u64), &r).unwrap());
+                openings.push(CommitmentOpening::new(marker_u64, r));
+            }
+            let promises: Vec<Option<u64>> = (0..m).map(|j| if j + 1 == m { Some(marker_u64 + 1) } else { None }).collect();
+            let st = RangeStatement::init(params, commitments, promises, None).unwrap();
+            let w = RangeWitness::init(openings).unwrap();
+            let mut rng = SymRng::new("sym", "zs");
+            let mut t = Transcript::new(b"symx context");
+            zscan::arm();
+            let p = RistrettoRangeProof::prove_with_rng(&mut t, &st, &w, &mut rng);
+            let refused = p.is_err();
+            drop(p);
+            let r = zscan::disarm();
+            assert!(refused);
+            r
+        },
         "mask" => {
             let mk = ExtendedMask::assign(ext_degree(x), (0..x).map(|_| marker_scalar()).collect()).unwrap();
             zscan::arm();
